@@ -113,6 +113,7 @@ def run(chk):
         chk.samples.append({"trace_event": {k: v for k, v in e.items() if k != "probes"}, "n_probes": len(e["probes"])})
     shared_contexts(chk, model)
     decorated_function_raises(chk, model)
+    per_call_failure(chk, model)
     return chk.finish(
         rule="cases = behaviours of PintRegistry (MC_Pint): all of length 3, each executed step by "
              "step on a fresh real registry with the full probe vector compared after every step, plus random histories of 25 calls validated by Trace_Pint; distinct by operation sequence; "
@@ -202,6 +203,63 @@ def decorated_function_raises(chk, model):
                     continue
                 if after_call != base:
                     chk.diverge(dict(sig, what="residue"), {"context": c, "outer": outer, "before": repr(base), "after": repr(after_call)})
+
+
+def per_call_failure(chk, model):
+    """contexts named in a single call (to / ito / m_as / convert) are WithEnter . conversion . WithExit: also when the conversion fails
+    inside them (no rule for the pair, or the rule raises) nothing stays active"""
+    import pint
+    keys = [("conv", "a", "b"), ("conv", "b", "a"), ("conv", "e", "a"), ("conv", "c", "a"), ("base", "e", ""), ("gbase", "e", "")]
+    valid = []
+    for c in sorted(model.c["ctxs"]):
+        try:
+            u = model.registry()
+            with u.context(c):
+                pass
+            valid.append(c)
+        except Exception:
+            pass
+    for c in valid:
+        for outer in [None] + valid[:2]:
+            for form in ("to", "ito", "m_as", "convert"):
+                chk.case(("per-call-failure", c, outer, form), nontrivial=True)
+                u = model.registry()
+                u.define("zz = [ZZ]")                      # no context links [ZZ] to anything: every conversion to it fails
+                base = [pm.probe(u, k) for k in keys]
+                q = u.Quantity(F(3), "a")
+
+                def attempt():
+                    try:
+                        if form == "to":
+                            q.to("zz", c)
+                        elif form == "ito":
+                            u.Quantity(F(3), "a").ito("zz", c)
+                        elif form == "m_as":
+                            q.m_as("zz") if False else q.to("zz", c).magnitude
+                        else:
+                            with u.context(c):
+                                u.convert(F(3), "a", "zz")
+                        return "converted"
+                    except pint.DimensionalityError:
+                        return "dimerr"
+                    except Exception as e:
+                        return "raises:" + type(e).__name__
+                sig = {"clause": "per-call-context-failure", "form": form, "nested": outer is not None}
+                if outer is None:
+                    r = attempt()
+                    after = [pm.probe(u, k) for k in keys]
+                else:
+                    with u.context(outer):
+                        inside = [pm.probe(u, k) for k in keys]
+                        r = attempt()
+                        again = [pm.probe(u, k) for k in keys]
+                        if again != inside:
+                            chk.diverge(dict(sig, what="outer-block-disturbed"), {"context": c, "outer": outer, "before": repr(inside), "after": repr(again)})
+                    after = [pm.probe(u, k) for k in keys]
+                if r == "converted":
+                    chk.diverge(dict(sig, what="unlinked-dimension-converted"), {"context": c, "outer": outer})
+                if after != base:
+                    chk.diverge(dict(sig, what="residue"), {"context": c, "outer": outer, "before": repr(base), "after": repr(after)})
 
 
 def replay(chk, rec):
